@@ -6,8 +6,8 @@ var sizeAppendNotAnalysed = map[string]string{
 	"proto.MarshalOptions.sizeMap":         "reflection encoder: map entries through order.RangeEntries callbacks; outside the recognised idioms, stated as not covered",
 	"proto.MarshalOptions.sizeMessageSet":  "MessageSet framing in the reflection encoder; outside the recognised idioms, stated as not covered",
 	"proto.MarshalOptions.sizeMessageSlow": "per-message loop of the reflection encoder (order.RangeFields callbacks); outside the recognised idioms, stated as not covered",
-	"internal/impl.sizeMap":        "map entries: per-entry sizing branches on whether the value is a message with a MessageInfo and the append side is split over appendMap/appendMapItem/appendMapDeterministic; outside the recognised idioms, stated as not covered",
-	"internal/impl.sizeMessageSet": "MessageSet item framing with lazy-extension branches; outside the recognised idioms, stated as not covered",
+	"internal/impl.sizeMap":                "map entries: per-entry sizing branches on whether the value is a message with a MessageInfo and the append side is split over appendMap/appendMapItem/appendMapDeterministic; outside the recognised idioms, stated as not covered",
+	"internal/impl.sizeMessageSet":         "MessageSet item framing with lazy-extension branches; outside the recognised idioms, stated as not covered",
 }
 
 func init() {
